@@ -217,6 +217,10 @@ def run(ctx):
             r6.fail(f.qualname, "active-dof", f.file, f.lineno, f"Field.{mname}", "the returned array does not depend on the active dof: for a vector field (dof_n > 1) the value is the scalar N_node whatever the component, so a form such as u.dot(v) couples different components (mass matrix with full dof_n x dof_n blocks instead of N_a N_b delta_ij)")
     copy_rule(ctx)
     ctx.attempt(forms_rule, ctx)
+    from .c02 import anisotropic_operator_rule as _anisotropic_operator_rule
+    from ..elems import ElemLib as _ElemLib
+
+    ctx.attempt(_anisotropic_operator_rule, ctx, _ElemLib(repo), "R13.11")
 
 
 def copy_rule(ctx):
